@@ -26,6 +26,7 @@ type LoopSpec struct {
 	Modifies   []string
 	HasMod     bool
 	Ghosts     []GhostLet // evaluated when the loop is first reached (before the havoc)
+	NoExit     bool       // the loop may only be left by exhaustion of its range / failing condition
 }
 
 type GhostLet struct {
@@ -94,6 +95,7 @@ type Contracts struct {
 	NoEffect  map[string]bool
 	NoEffPkg  map[string]bool
 	Inline    map[string]bool
+	Devirt    map[string]string // interface (pkgpath.Name) -> concrete named type (pkgpath.Name), pointer receiver
 	SpecFuncs map[string]*SpecFunc
 	SpecSorts map[string]bool
 	Ghosts    map[string]*GhostField
@@ -106,7 +108,7 @@ type Contracts struct {
 func newContracts() *Contracts {
 	return &Contracts{
 		Funcs: map[string]*FuncContract{}, Externs: map[string]*FuncContract{},
-		Pure: map[string]bool{}, NoEffect: map[string]bool{}, NoEffPkg: map[string]bool{}, Inline: map[string]bool{},
+		Pure: map[string]bool{}, NoEffect: map[string]bool{}, NoEffPkg: map[string]bool{}, Inline: map[string]bool{}, Devirt: map[string]string{},
 		SpecFuncs: map[string]*SpecFunc{}, SpecSorts: map[string]bool{}, Ghosts: map[string]*GhostField{},
 	}
 }
@@ -114,7 +116,7 @@ func newContracts() *Contracts {
 var clauseKeywords = map[string]bool{
 	"func": true, "extern": true, "pure": true, "noeffect": true, "spec": true, "ghost": true,
 	"axiom": true, "lemma": true, "requires": true, "ensures": true, "modifies": true, "loop": true,
-	"wraps": true, "props": true, "assume": true, "assert": true, "trusted": true, "inline": true, "flag": true,
+	"devirt": true, "wraps": true, "props": true, "assume": true, "assert": true, "trusted": true, "inline": true, "flag": true,
 }
 
 type rawLine struct {
@@ -256,6 +258,13 @@ func (cs *Contracts) loadFile(file, pkgPath string) error {
 		case "inline":
 			cs.Inline[rest] = true
 			cur = nil
+		case "devirt":
+			parts := strings.Split(rest, "=>")
+			if len(parts) != 2 {
+				return fmt.Errorf("%s:%d: devirt needs 'Iface => Concrete'", rl.file, rl.line)
+			}
+			cs.Devirt[strings.TrimSpace(parts[0])] = strings.TrimSpace(parts[1])
+			cur = nil
 		case "spec":
 			a, b := splitFirst(rest)
 			switch a {
@@ -363,6 +372,8 @@ func (cs *Contracts) loadFile(file, pkgPath string) error {
 				if r3 != "nothing" {
 					ls.Modifies = append(ls.Modifies, splitCommaList(r3)...)
 				}
+			case "noexit":
+				ls.NoExit = true
 			case "ghost":
 				i := strings.Index(r3, ":=")
 				if i < 0 {
